@@ -34,7 +34,7 @@ from vlib.runner import Mismatch, drive
 PROP = "C17"
 LEVEL = "exploration"
 WORKERS = {"quick": 4, "thorough": 16}
-BUDGET = {"quick": 55, "thorough": 560}
+BUDGET = {"quick": 100, "thorough": 560}
 RULE = (
     "Cases: Hypothesis-generated histories (0-7 initial jobs, a view, then 1-5 rounds of 0-3 data space "
     "changes followed by a view / repeat / reject probe) over one project drawn from five state point "
